@@ -226,6 +226,13 @@ def generate(repo: str) -> tuple[str, str]:
                   "self._add_to_list(token, port_name, propagate=self._propagate)", "self._product()")
     check_combine("CartesianProductCombinator", "self._add_to_list(schema, c.name, self.depth)",
                   "self._add_to_list(token, port_name, self.depth)", "self._product(port_name, token)")
+    cinit = parse_function(comb_py, "__init__", cls="CartesianProductCombinator")
+    cargs = [a.arg for a in cinit.args.args]
+    if cargs != ["self", "name", "workflow", "depth"] or len(cinit.args.defaults) != 1 or \
+            not (isinstance(cinit.args.defaults[0], ast.Constant) and isinstance(cinit.args.defaults[0].value, int)
+                 and cinit.args.defaults[0].value >= 1) or "self.depth: int = depth" not in [_src(x) for x in cinit.body]:
+        raise TranslateError("CartesianProductCombinator.__init__: expected `(self, name, workflow, depth: int = <literal >= 1>)` storing self.depth")
+    cart_default_depth = cinit.args.defaults[0].value
     init = parse_function(comb_py, "__init__", cls="DotProductCombinator")
     if "self._propagate: bool = True" not in [_src(x) for x in init.body]:
         raise TranslateError("DotProductCombinator.__init__: `self._propagate: bool = True` not found (the model propagates)")
@@ -259,6 +266,8 @@ def cartKey (depth : Nat) (t : List Nat) : List Nat := t.take (t.length - depth)
 def cartSuffixOf (t : List Nat) : Option Nat := {suffix_of}
 /-- the part of its own tag every member keeps (`t.tag.split(".")[:-{keep}]`) -/
 def cartRetagKeep (t : List Nat) : List Nat := t.take (t.length - {keep})
+/-- default of `depth` in `CartesianProductCombinator.__init__` (what the CWL translator, which never passes a depth, gets) -/
+def cartDefaultDepth : Nat := {cart_default_depth}
 /-- `CartesianProductCombinator._add_to_port` skips a token whose tag is already in the deque -/
 def cartDedup : Bool := {cart_dedup}
 
